@@ -54,6 +54,9 @@ pub struct Plan {
 pub struct Hist {
     pub reference: Option<(f64, f64)>,
     pub plans: Vec<Plan>,
+    /// one common site for all aircraft, airborne reports within 15 NM of it carry altitudes below 1000 ft, and the
+    /// decoder is asked to move the receiver reference to such fixes (what decode1090 always does)
+    pub lowalt: bool,
 }
 
 #[derive(Clone, Debug)]
@@ -67,7 +70,13 @@ pub struct Report {
     pub surface: bool,
     pub odd: bool,
     pub df18: bool,
+    /// barometric / GNSS altitude carried by an airborne report, in feet; `i32::MIN` = altitude unavailable
+    pub alt_ft: i32,
+    /// 0 = none; otherwise a non-position message of the same aircraft is delivered right after this report
+    pub filler: u8,
 }
+
+pub const NO_ALT: i32 = i32::MIN;
 
 fn rhumb_dest(lat: f64, lon: f64, bearing: f64, d: f64) -> (f64, f64) {
     let b = bearing.to_radians();
@@ -209,7 +218,16 @@ fn fly(p: &Plan, ac: usize, reference: Option<(f64, f64)>) -> Vec<Report> {
             (Some((_, shift)), true) => shift,
             _ => 0.0,
         };
-        out.push(Report { ac, icao: p.icao, ts, arrival: ts, lat, lon, surface: *surface, odd, df18: p.df18 });
+        // altitude and filler: a pure function of the plan's op bytes, so that shrinking keeps them
+        let ob = p.ops.get((i * 3 + 2) % p.ops.len().max(1)).copied().unwrap_or(0);
+        let ob2 = p.ops.get((i * 11 + 5) % p.ops.len().max(1)).copied().unwrap_or(0);
+        let alt_ft = match ob % 8 {
+            0 => NO_ALT,
+            1 | 2 => 5_000 + 100 * ((ob2 as i32 * 7 + ob as i32) % 450), // Gillham-coded (multiple of 100 ft)
+            _ => 5_000 + 25 * ((ob2 as i32 * 29 + ob as i32 * 3) % 1_800),
+        };
+        let filler = if ob2 % 4 == 0 { 1 + (ob2 >> 2) % 8 } else { 0 };
+        out.push(Report { ac, icao: p.icao, ts, arrival: ts, lat, lon, surface: *surface, odd, df18: p.df18, alt_ft, filler });
     }
     out
 }
@@ -217,8 +235,28 @@ fn fly(p: &Plan, ac: usize, reference: Option<(f64, f64)>) -> Vec<Report> {
 /// Apply losses, duplicates and local swaps; merge all aircraft by arrival time.
 pub fn build(h: &Hist) -> Vec<Report> {
     let mut all: Vec<Report> = vec![];
+    let lowalt_site = match (h.lowalt, h.reference, h.plans.first()) {
+        (true, Some((rl, ro)), Some(p0)) => Some(destination(rl, ro, p0.site_bearing, p0.site_nm.clamp(0.0, 36.0) * NM)),
+        _ => None,
+    };
     for (ac, p) in h.plans.iter().enumerate() {
-        let base = fly(p, ac, h.reference);
+        let mut shared;
+        let p = if lowalt_site.is_some() {
+            shared = p.clone();
+            shared.site_bearing = h.plans[0].site_bearing;
+            shared.site_nm = h.plans[0].site_nm;
+            &shared
+        } else {
+            p
+        };
+        let mut base = fly(p, ac, h.reference);
+        if let Some(site) = lowalt_site {
+            for r in base.iter_mut() {
+                if !r.surface && r.alt_ft != NO_ALT && haversine_m(site.0, site.1, r.lat, r.lon) < 15.0 * NM {
+                    r.alt_ft = r.alt_ft.rem_euclid(40) * 25; // 0 .. 975 ft: below decode1090's 1000 ft threshold
+                }
+            }
+        }
         let mut mine: Vec<Report> = vec![];
         for (i, r) in base.iter().enumerate() {
             let op = p.ops.get((i * 7 + 3) % p.ops.len().max(1)).copied().unwrap_or(0);
@@ -264,29 +302,81 @@ pub fn build(h: &Hist) -> Vec<Report> {
     all
 }
 
-pub fn frame_of(r: &Report) -> Vec<u8> {
-    let c = encode(r.lat, r.lon, r.odd as u32, r.surface);
-    let me = if r.surface {
-        enc::me_surface(&enc::SurfaceMe { tc: 7, mov: 5, trk_status: 1, trk: 10, t: 0, f: r.odd as u8, lat: c.yz, lon: c.xz })
+/// Bits that select everything in a frame that is not position, parity or address: a function of the encoded
+/// position only, so that a duplicate reception carries the very same frame.
+fn variety(r: &Report) -> u64 {
+    h64(&(r.icao, r.lat.to_bits(), r.lon.to_bits(), r.odd, r.surface))
+}
+
+pub fn alt12_of(alt_ft: i32) -> u16 {
+    if alt_ft == NO_ALT {
+        0
+    } else if alt_ft % 100 == 0 && (alt_ft / 100) % 2 == 1 {
+        enc::ac12_gillham(alt_ft).unwrap_or(0)
     } else {
-        enc::me_airborne(&enc::AirborneMe { tc: 11, ss: 0, saf: 0, alt12: enc::ac12_q(1400), t: 0, f: r.odd as u8, lat: c.yz, lon: c.xz })
-    };
-    if r.df18 {
-        enc::df18(2, r.icao, &me)
-    } else {
-        enc::df17(5, r.icao, &me)
+        enc::ac12_q(((alt_ft + 1000) / 25).clamp(0, 2047) as u16)
     }
 }
 
-fn to_timed(reports: &[Report]) -> Result<Vec<TimedMessage>, String> {
-    reports
-        .iter()
-        .map(|r| {
-            let frame = frame_of(r);
-            let msg = Message::try_from(frame.as_slice()).map_err(|e| format!("frame {} rejected: {e}", hex::encode(&frame)))?;
-            Ok(TimedMessage { timestamp: r.ts, frame, message: Some(msg), metadata: vec![], decode_time: None })
-        })
-        .collect()
+pub fn frame_of(r: &Report) -> Vec<u8> {
+    let c = encode(r.lat, r.lon, r.odd as u32, r.surface);
+    let v = variety(r);
+    let me = if r.surface {
+        // every surface type code, movement code (incl. reserved ones), track status and track, time bit
+        enc::me_surface(&enc::SurfaceMe { tc: 5 + (v & 3) as u8, mov: ((v >> 2) & 127) as u8, trk_status: ((v >> 9) & 1) as u8, trk: ((v >> 10) & 127) as u8, t: ((v >> 17) & 1) as u8, f: r.odd as u8, lat: c.yz, lon: c.xz })
+    } else {
+        // barometric (TC 9-18) and GNSS (TC 20-22) carriers, surveillance status, antenna flag, time bit
+        let tc = [9u8, 10, 11, 12, 13, 14, 15, 16, 17, 18, 20, 21, 22][(v % 13) as usize];
+        enc::me_airborne(&enc::AirborneMe { tc, ss: ((v >> 8) & 3) as u8, saf: ((v >> 10) & 1) as u8, alt12: alt12_of(r.alt_ft), t: ((v >> 11) & 1) as u8, f: r.odd as u8, lat: c.yz, lon: c.xz })
+    };
+    if r.df18 {
+        enc::df18(((v >> 20) & 7) as u8, r.icao, &me)
+    } else {
+        enc::df17(((v >> 23) & 7) as u8, r.icao, &me)
+    }
+}
+
+/// A message of the same aircraft that carries no position (velocity, identification, status, operational status,
+/// all-call reply, altitude reply, "no position" squitter): delivered 50 ms after the report it follows.
+pub fn filler_of(r: &Report) -> Vec<u8> {
+    let v = variety(r) >> 27;
+    let wrap = |me: &[u8; 7]| if r.df18 { enc::df18(((v >> 3) & 7) as u8, r.icao, me) } else { enc::df17(5, r.icao, me) };
+    match r.filler {
+        1 => wrap(&enc::me_velocity(&enc::VelocityMe { subtype: 1, ic: 0, ifr: 0, nac: 2, body22: enc::vel_ground_body((v & 1) as u8, 1 + ((v >> 1) % 700) as u16, ((v >> 11) & 1) as u8, 1 + ((v >> 12) % 700) as u16), vr_src: 0, vr_sign: 0, vr: 10, reserved: 0, dif_sign: 0, dif: 20 })),
+        2 => wrap(&enc::me_ident(4, 0, &[1, 2, 3, 4, 48, 49, 50, 32])),
+        3 => wrap(&enc::me_status(1, 0, enc::id13(1, 2, 3, 4), 0)),
+        4 => wrap(&enc::me_raw(31, (v & 0x7) << 48)),
+        5 => enc::df11(5, r.icao, 0),
+        6 => enc::df4(0, 0, 0, enc::ac13_q(400 + (v % 1000) as u16), r.icao),
+        7 => wrap(&enc::me_raw(0, (v & 0xfff) << 36)),
+        _ => wrap(&enc::me_raw(29, (1u64 << 49) | (v & 0xffff) << 20)),
+    }
+}
+
+/// What is actually fed: the reports in arrival order, each possibly followed by its filler.
+pub struct Fed {
+    pub msgs: Vec<TimedMessage>,
+    /// index into the report list, None for a filler
+    pub src: Vec<Option<usize>>,
+}
+
+fn to_timed(reports: &[Report]) -> Result<Fed, String> {
+    let mut fed = Fed { msgs: vec![], src: vec![] };
+    for (i, r) in reports.iter().enumerate() {
+        let frame = frame_of(r);
+        let msg = Message::try_from(frame.as_slice()).map_err(|e| format!("frame {} rejected: {e}", hex::encode(&frame)))?;
+        fed.msgs.push(TimedMessage { timestamp: r.ts, frame, message: Some(msg), metadata: vec![], decode_time: None });
+        fed.src.push(Some(i));
+        if r.filler != 0 {
+            let frame = filler_of(r);
+            // a filler the decoder does not accept is simply not part of the stream
+            if let Ok(msg) = Message::try_from(frame.as_slice()) {
+                fed.msgs.push(TimedMessage { timestamp: r.ts + 0.05, frame, message: Some(msg), metadata: vec![], decode_time: None });
+                fed.src.push(None);
+            }
+        }
+    }
+    Ok(fed)
 }
 
 fn position_of(t: &TimedMessage) -> Option<(f64, f64)> {
@@ -314,29 +404,48 @@ pub struct Stats {
     pub reports: AtomicU64,
     pub positioned: AtomicU64,
     pub surface_positioned: AtomicU64,
+    /// positioned airborne reports below 1000 ft in a 'low altitude' history: each moves the receiver reference
+    pub reference_moves: AtomicU64,
+    pub fillers: AtomicU64,
 }
 
 pub fn replay_json(h: &Hist, reports: &[Report]) -> Value {
     json!({
         "kind": "history",
         "reference": h.reference.map(|r| vec![r.0, r.1]),
-        "reports": reports.iter().map(|r| json!({"ac": r.ac, "icao": format!("{:06x}", r.icao), "ts": r.ts, "lat": r.lat, "lon": r.lon, "surface": r.surface, "odd": r.odd, "df18": r.df18, "frame": hex::encode(frame_of(r))})).collect::<Vec<_>>(),
+        "reports": reports.iter().map(|r| json!({"ac": r.ac, "icao": format!("{:06x}", r.icao), "ts": r.ts, "lat": r.lat, "lon": r.lon, "surface": r.surface, "odd": r.odd, "df18": r.df18, "alt_ft": if r.alt_ft == NO_ALT { Value::Null } else { json!(r.alt_ft) }, "filler": r.filler, "frame": hex::encode(frame_of(r))})).collect::<Vec<_>>(),
+        "lowalt": h.lowalt,
     })
 }
 
+fn update_if(lowalt: bool) -> rs1090::decode::cpr::UpdateIf {
+    if lowalt {
+        Some(Box::new(|pos: &rs1090::decode::bds::bds05::AirbornePosition| pos.alt.is_some_and(|alt| alt < 1000)) as Box<dyn Fn(&rs1090::decode::bds::bds05::AirbornePosition) -> bool>)
+    } else {
+        None
+    }
+}
+
 /// Evaluate an explicit report list (this is also the replay entry point).
-pub fn check_reports(ctx: &Ctx, st: &Stats, reference: Option<(f64, f64)>, reports: &[Report], rep: &Value) -> Check {
+pub fn check_reports(ctx: &Ctx, st: &Stats, reference: Option<(f64, f64)>, lowalt: bool, reports: &[Report], rep: &Value) -> Check {
     ctx.eval();
     let fail = |sig: &str, d: String| Failure::new(format!("c06:{sig}"), d, rep.clone());
     let refpos = reference.map(|(a, o)| Position { latitude: a, longitude: o });
     let mut merged = to_timed(reports).map_err(|e| fail("frame-rejected", e))?;
-    catch(|| decode_positions(&mut merged, refpos, &None)).map_err(|p| fail("panic", p))?;
+    catch(|| decode_positions(&mut merged.msgs, refpos, &update_if(lowalt))).map_err(|p| fail("panic", p))?;
     let mut npos = 0u64;
-    for (r, t) in reports.iter().zip(merged.iter()) {
+    for (t, src) in merged.msgs.iter().zip(merged.src.iter()) {
+        let Some(i) = src else {
+            // a message that carries no position report cannot have a position attached
+            continue;
+        };
+        let r = &reports[*i];
         if let Some((la, lo)) = position_of(t) {
             npos += 1;
             if r.surface {
                 st.surface_positioned.fetch_add(1, Ordering::Relaxed);
+            } else if lowalt && r.alt_ft != NO_ALT && r.alt_ft < 1000 {
+                st.reference_moves.fetch_add(1, Ordering::Relaxed);
             }
             let d = haversine_m(r.lat, r.lon, la, lo);
             if !(d <= TOL_M) {
@@ -351,19 +460,22 @@ pub fn check_reports(ctx: &Ctx, st: &Stats, reference: Option<(f64, f64)>, repor
     }
     st.reports.fetch_add(reports.len() as u64, Ordering::Relaxed);
     st.positioned.fetch_add(npos, Ordering::Relaxed);
-    // non-interference: each aircraft alone gives bit-identical results
+    st.fillers.fetch_add(merged.src.iter().filter(|s| s.is_none()).count() as u64, Ordering::Relaxed);
+    // non-interference (stated for a fixed receiver reference): each aircraft alone gives bit-identical results
     let nac = reports.iter().map(|r| r.ac).max().map(|m| m + 1).unwrap_or(0);
-    if nac > 1 {
+    if nac > 1 && !lowalt {
         for ac in 0..nac {
             let idx: Vec<usize> = (0..reports.len()).filter(|i| reports[*i].ac == ac).collect();
             let own: Vec<Report> = idx.iter().map(|i| reports[*i].clone()).collect();
             let mut alone = to_timed(&own).map_err(|e| fail("frame-rejected", e))?;
-            catch(|| decode_positions(&mut alone, refpos, &None)).map_err(|p| fail("panic", p))?;
-            for (k, i) in idx.iter().enumerate() {
-                let a = position_of(&merged[*i]).map(|p| (p.0.to_bits(), p.1.to_bits()));
-                let b = position_of(&alone[k]).map(|p| (p.0.to_bits(), p.1.to_bits()));
+            catch(|| decode_positions(&mut alone.msgs, refpos, &None)).map_err(|p| fail("panic", p))?;
+            let got: Vec<_> = merged.msgs.iter().zip(merged.src.iter()).filter(|(_, s)| s.map(|i| reports[i].ac == ac).unwrap_or(false)).map(|(t, _)| t).collect();
+            let want: Vec<_> = alone.msgs.iter().zip(alone.src.iter()).filter(|(_, s)| s.is_some()).map(|(t, _)| t).collect();
+            for (k, (g, w)) in got.iter().zip(want.iter()).enumerate() {
+                let a = position_of(g).map(|p| (p.0.to_bits(), p.1.to_bits()));
+                let b = position_of(w).map(|p| (p.0.to_bits(), p.1.to_bits()));
                 if a != b {
-                    return Err(fail("interference", format!("aircraft {:06x} report at ts {:.3}: {:?} when interleaved, {:?} alone", own[k].icao, own[k].ts, position_of(&merged[*i]), position_of(&alone[k]))));
+                    return Err(fail("interference", format!("aircraft {:06x} report at ts {:.3}: {:?} when interleaved, {:?} alone", own[k].icao, own[k].ts, position_of(g), position_of(w))));
                 }
             }
         }
@@ -381,28 +493,64 @@ pub fn check_reports(ctx: &Ctx, st: &Stats, reference: Option<(f64, f64)>, repor
     Ok(())
 }
 
+/// Judge what another front end (decode1090, the Python binding) printed for the fed list: (frame, position) per line.
+fn judge_front_end(what: &str, fail: &dyn Fn(&str, String) -> Failure, reports: &[Report], fed: &Fed, lib: &Fed, got: &[(String, Option<(f64, f64)>)]) -> Result<u64, Failure> {
+    if got.len() != fed.msgs.len() {
+        return Err(fail("record-count", format!("{} records for {} messages", got.len(), fed.msgs.len())));
+    }
+    let mut npos = 0;
+    for (((frame, pos), t), (f, src)) in got.iter().zip(lib.msgs.iter()).zip(fed.msgs.iter().zip(fed.src.iter())) {
+        if *frame != hex::encode(&f.frame) {
+            return Err(fail("order", format!("record carries frame {} where {} was fed", frame, hex::encode(&f.frame))));
+        }
+        if let (Some((la, lo)), Some(i)) = (pos, src) {
+            let r = &reports[*i];
+            npos += 1;
+            let d = haversine_m(r.lat, r.lon, *la, *lo);
+            if !(d <= TOL_M) {
+                return Err(fail(&format!("wrong-position:{}", if r.surface { "surface" } else { "airborne" }), format!("aircraft {:06x} at ts {:.3}: encoded from ({:.6}, {:.6}), {what} reports ({:.6}, {:.6}), {:.0} m off", r.icao, r.ts, r.lat, r.lon, la, lo, d)));
+            }
+        }
+        let want = position_of(t);
+        let same = match (pos, want) {
+            (None, None) => true,
+            (Some(a), Some(b)) => (a.0 - b.0).abs() < 1e-9 && (a.1 - b.1).abs() < 1e-9,
+            _ => false,
+        };
+        if !same {
+            return Err(fail("differs-from-library", format!("message {} at ts {:.3}: {what} {:?}, decode_positions {:?}", frame, f.timestamp, pos, want)));
+        }
+    }
+    Ok(npos)
+}
+
 /// The same history through the real decode1090 binary (its own loop around decode_position: `-d 0` processes every
-/// line as it arrives, `--reference` is the receiver position; its reference update only reacts to airborne fixes
-/// below 1000 ft and the generated reports fly at 1400 ft). Oracle: every position it prints is within 25 m of the
+/// line as it arrives, `--reference` is the receiver position; it always moves the reference to airborne fixes below
+/// 1000 ft, which only the `lowalt` histories contain). Oracle: every position it prints is within 25 m of the
 /// truth, and the set of positioned reports and the positions equal those of decode_positions.
 pub fn check_cli(ctx: &Ctx, bin: &str, h: &Hist) -> Check {
     let reports = build(h);
     let mut rep = replay_json(h, &reports);
     rep["via"] = json!("decode1090");
-    check_cli_reports(ctx, bin, h.reference, &reports, &rep)
+    check_cli_reports(ctx, bin, h.reference, h.lowalt, &reports, &rep)
 }
 
-pub fn check_cli_reports(ctx: &Ctx, bin: &str, reference: Option<(f64, f64)>, reports: &[Report], rep: &Value) -> Check {
+fn scratch_file(tag: &str) -> std::path::PathBuf {
+    let dir = vcore::ev::out_root().join(".tmp");
+    let _ = std::fs::create_dir_all(&dir);
+    dir.join(format!("c06-{tag}-{}-{:?}.json", std::process::id(), std::thread::current().id()))
+}
+
+pub fn check_cli_reports(ctx: &Ctx, bin: &str, reference: Option<(f64, f64)>, lowalt: bool, reports: &[Report], rep: &Value) -> Check {
     use std::io::Write;
     ctx.eval();
     let fail = |sig: &str, d: String| Failure::new(format!("c06:cli:{sig}"), d, rep.clone());
-    let dir = vcore::ev::out_root().join(".tmp");
-    let _ = std::fs::create_dir_all(&dir);
-    let path = dir.join(format!("c06-{}-{:?}.jsonl", std::process::id(), std::thread::current().id()));
+    let fed = to_timed(reports).map_err(|e| fail("frame-rejected", e))?;
+    let path = scratch_file("cli");
     {
         let mut f = std::fs::File::create(&path).expect("scratch file");
-        for r in reports {
-            writeln!(f, "{}", json!({"timestamp": r.ts, "frame": hex::encode(frame_of(r))})).unwrap();
+        for t in &fed.msgs {
+            writeln!(f, "{}", json!({"timestamp": t.timestamp, "frame": hex::encode(&t.frame)})).unwrap();
         }
     }
     let mut cmd = std::process::Command::new(bin);
@@ -419,43 +567,98 @@ pub fn check_cli_reports(ctx: &Ctx, bin: &str, reference: Option<(f64, f64)>, re
     if !out.status.success() {
         return Err(fail("decode1090-failed", String::from_utf8_lossy(&out.stderr).chars().take(300).collect::<String>()));
     }
-    let lines: Vec<Value> = String::from_utf8_lossy(&out.stdout).lines().filter_map(|l| serde_json::from_str::<Value>(l).ok()).collect();
-    if lines.len() != reports.len() {
-        return Err(fail("record-count", format!("{} lines for {} reports", lines.len(), reports.len())));
-    }
-    // the library on the same list
-    let refpos = reference.map(|(a, o)| Position { latitude: a, longitude: o });
-    let mut lib = to_timed(reports).map_err(|e| fail("frame-rejected", e))?;
-    catch(|| decode_positions(&mut lib, refpos, &None)).map_err(|p| fail("panic", p))?;
-    let mut npos = 0;
-    for ((r, v), t) in reports.iter().zip(lines.iter()).zip(lib.iter()) {
-        if v["frame"].as_str() != Some(hex::encode(frame_of(r)).as_str()) {
-            return Err(fail("order", format!("line carries frame {} where {} was fed", v["frame"], hex::encode(frame_of(r)))));
-        }
-        let got = match (v["latitude"].as_f64(), v["longitude"].as_f64()) {
+    let mut got = vec![];
+    for l in String::from_utf8_lossy(&out.stdout).lines() {
+        let Ok(v) = serde_json::from_str::<Value>(l) else { continue };
+        let pos = match (v["latitude"].as_f64(), v["longitude"].as_f64()) {
             (Some(a), Some(o)) => Some((a, o)),
             (None, None) => None,
             _ => return Err(fail("half-position", v.to_string())),
         };
-        if let Some((la, lo)) = got {
-            npos += 1;
-            let d = haversine_m(r.lat, r.lon, la, lo);
-            if !(d <= TOL_M) {
-                return Err(fail(&format!("wrong-position:{}", if r.surface { "surface" } else { "airborne" }), format!("aircraft {:06x} at ts {:.3}: encoded from ({:.6}, {:.6}), decode1090 reports ({:.6}, {:.6}), {:.0} m off", r.icao, r.ts, r.lat, r.lon, la, lo, d)));
-            }
-        }
-        let want = position_of(t);
-        let same = match (got, want) {
-            (None, None) => true,
-            (Some(a), Some(b)) => (a.0 - b.0).abs() < 1e-9 && (a.1 - b.1).abs() < 1e-9,
-            _ => false,
-        };
-        if !same {
-            return Err(fail("differs-from-library", format!("aircraft {:06x} at ts {:.3}: decode1090 {:?}, decode_positions {:?}", r.icao, r.ts, got, want)));
-        }
+        got.push((v["frame"].as_str().unwrap_or("").to_string(), pos));
     }
+    // the library on the same list
+    let refpos = reference.map(|(a, o)| Position { latitude: a, longitude: o });
+    let mut lib = to_timed(reports).map_err(|e| fail("frame-rejected", e))?;
+    catch(|| decode_positions(&mut lib.msgs, refpos, &update_if(lowalt))).map_err(|p| fail("panic", p))?;
+    let npos = judge_front_end("decode1090", &fail, reports, &fed, &lib, &got)?;
     if npos > 0 {
         ctx.nontrivial(h64(&("cli", reports.iter().map(|r| (r.icao, r.ts.to_bits(), r.lat.to_bits(), r.odd, r.surface)).collect::<Vec<_>>())));
+    }
+    Ok(())
+}
+
+/// The same history through the Python binding (python/src/lib.rs: `decode_1090t_vec` decodes the chunks of a
+/// list of lists in parallel, flattens them and calls decode_positions with a fixed reference). The chunking is a
+/// function of the history. Oracle as for decode1090.
+pub fn check_py(ctx: &Ctx, py: &PyEnv, h: &Hist) -> Check {
+    let reports = build(h);
+    let mut rep = replay_json(h, &reports);
+    rep["via"] = json!("python");
+    check_py_reports(ctx, py, h.reference, &reports, &rep)
+}
+
+pub struct PyEnv {
+    pub python: String,
+    pub so: String,
+    pub script: String,
+}
+
+impl PyEnv {
+    pub fn from_env() -> Option<PyEnv> {
+        Some(PyEnv { python: std::env::var("VERIF_PYTHON").ok()?, so: std::env::var("RS1090_PY_SO").ok()?, script: std::env::var("VERIF_PY_DRIVER").ok()? })
+    }
+}
+
+pub fn check_py_reports(ctx: &Ctx, py: &PyEnv, reference: Option<(f64, f64)>, reports: &[Report], rep: &Value) -> Check {
+    ctx.eval();
+    let fail = |sig: &str, d: String| Failure::new(format!("c06:py:{sig}"), d, rep.clone());
+    let fed = to_timed(reports).map_err(|e| fail("frame-rejected", e))?;
+    // chunk boundaries from the hash of the history
+    let mut hsh = h64(&reports.iter().map(|r| (r.icao, r.ts.to_bits())).collect::<Vec<_>>());
+    let mut chunks: Vec<Vec<String>> = vec![vec![]];
+    let mut tss: Vec<Vec<f64>> = vec![vec![]];
+    for t in &fed.msgs {
+        hsh = hsh.wrapping_mul(6364136223846793005).wrapping_add(1442695040888963407);
+        if (hsh >> 33) % 5 == 0 {
+            chunks.push(vec![]);
+            tss.push(vec![]);
+        }
+        chunks.last_mut().unwrap().push(hex::encode(&t.frame));
+        tss.last_mut().unwrap().push(t.timestamp);
+    }
+    let path = scratch_file("py");
+    std::fs::write(&path, json!({"msgs": chunks, "ts": tss, "reference": reference.map(|r| vec![r.0, r.1])}).to_string()).expect("scratch file");
+    let out = std::process::Command::new(&py.python).args([py.script.as_str(), py.so.as_str(), path.to_str().unwrap()]).output();
+    let _ = std::fs::remove_file(&path);
+    let Ok(out) = out else {
+        eprintln!("INCONCLUSIVE: python could not be started");
+        std::process::exit(2);
+    };
+    let text = String::from_utf8_lossy(&out.stdout);
+    let Some(v) = text.lines().last().and_then(|l| serde_json::from_str::<Value>(l).ok()) else {
+        eprintln!("INCONCLUSIVE: the Python driver printed nothing usable: {}", String::from_utf8_lossy(&out.stderr).chars().take(300).collect::<String>());
+        std::process::exit(2);
+    };
+    if let Some(e) = v.get("error") {
+        // the binding raised (a Rust panic surfaces as PanicException)
+        return Err(fail("python-raised", e.to_string()));
+    }
+    let mut got = vec![];
+    for rec in v["records"].as_array().cloned().unwrap_or_default() {
+        let pos = match (rec[1].as_f64(), rec[2].as_f64()) {
+            (Some(a), Some(o)) => Some((a, o)),
+            _ if rec[1].is_null() && rec[2].is_null() => None,
+            _ => return Err(fail("half-position", rec.to_string())),
+        };
+        got.push((rec[0].as_str().unwrap_or("").to_string(), pos));
+    }
+    let refpos = reference.map(|(a, o)| Position { latitude: a, longitude: o });
+    let mut lib = to_timed(reports).map_err(|e| fail("frame-rejected", e))?;
+    catch(|| decode_positions(&mut lib.msgs, refpos, &None)).map_err(|p| fail("panic", p))?;
+    let npos = judge_front_end("the Python binding", &fail, reports, &fed, &lib, &got)?;
+    if npos > 0 {
+        ctx.nontrivial(h64(&("py", reports.iter().map(|r| (r.icao, r.ts.to_bits(), r.lat.to_bits(), r.odd, r.surface)).collect::<Vec<_>>())));
     }
     Ok(())
 }
@@ -463,7 +666,7 @@ pub fn check_cli_reports(ctx: &Ctx, bin: &str, reference: Option<(f64, f64)>, re
 pub fn check_hist(ctx: &Ctx, st: &Stats, h: &Hist) -> Check {
     let reports = build(h);
     let rep = replay_json(h, &reports);
-    check_reports(ctx, st, h.reference, &reports, &rep)
+    check_reports(ctx, st, h.reference, h.lowalt, &reports, &rep)
 }
 
 // ------------------------------------------------------------- strategies
@@ -525,40 +728,56 @@ fn hist(surface: bool) -> BoxedStrategy<Hist> {
                         p.lat = p.lat.clamp(-85.0, 85.0);
                     }
                 }
-                Hist { reference: Some((r.lat.clamp(-80.0, 80.0), r.lon)), plans }
+                Hist { reference: Some((r.lat.clamp(-80.0, 80.0), r.lon)), plans, lowalt: false }
             })
             .boxed()
     } else {
         (proptest::option::of(point()), proptest::collection::vec(plan(prop_oneof![4 => Just(0u8), 1 => Just(4u8)]), 1..=4))
             .prop_map(|(r, mut plans)| {
                 assign_addresses(&mut plans);
-                Hist { reference: r.map(|r| (r.lat, r.lon)), plans }
+                Hist { reference: r.map(|r| (r.lat, r.lon)), plans, lowalt: false }
             })
             .boxed()
     }
 }
 
+/// Surface scenarios around one common site, with low-altitude fixes that move the receiver reference.
+fn hist_lowalt() -> BoxedStrategy<Hist> {
+    hist(true)
+        .prop_map(|mut h| {
+            h.lowalt = true;
+            h
+        })
+        .boxed()
+}
+
+fn classes(ctx: &Ctx, what: &str, h: &Hist) {
+    ctx.class(&format!("{what} scenario, {} aircraft", h.plans.len()));
+    for p in &h.plans {
+        ctx.class(["plan: airborne only", "plan: landing", "plan: take-off", "plan: alias", "plan: airborne alias"][(p.kind as usize).min(4)]);
+    }
+}
+
 pub fn run(ctx: &Ctx) {
-    ctx.set_rule("histories: 1-4 aircraft, each a plan (start from the C04 strata incl. flights along the 87th parallel, bearing, speed in {0,140,450,700, uniform 0-700} kt, 1-6 segments of 1-29 reports every 0.4-0.6 s separated by gaps from {9.5, 9.99, 10.01, 10.5, 12, 20, 30, 60, 170, 179.9, 180.1, 190, 470, 600, 1000, 1700, 1790, 1860, 2000, 7200 s}, mostly alternating parity, loss levels 0/20/60/90 %, duplicate receptions +<=0.3 s, neighbours delivered in swapped order across any gap (truthful timestamps) or with exchanged timestamps when < 1.5 s apart, DF17 or DF18 carriers, addresses independent or from one family differing in a few bits / byte order); the airborne alias family 'gap just long enough to fly k latitude / m longitude zones (+-40 km) at <= 690 kt, then airborne again'; surface scenarios add landings, take-offs and the adversarial 'last airborne fix exactly k surface zones away, long gap, then surface' family, with a receiver reference within 36 NM of every surface site and |lat| <= 80. Frames from the independent encoder through Message::try_from and decode_positions, and (320 / 6400 histories) as a JSONL file through the real decode1090 binary, whose own loop calls decode_position (positions within 25 m and equal to the library's). Oracle: every attached position within 25 m of the encoded one; per-aircraft outputs bit-identical with and without the other aircraft. Non-trivial = history with >= 1 positioned report and (a gap > 9 s or >= 2 aircraft); distinct by hash of the report list.");
-    ctx.assume("speeds <= 700 kt along great circles (rhumb lines along the 87th parallel); receiver reference fixed (update_reference = None)");
+    ctx.set_rule("histories: 1-4 aircraft, each a plan (start from the C04 strata incl. flights along the 87th parallel, bearing, speed in {0,140,450,700, uniform 0-700} kt, 1-6 segments of 1-29 reports every 0.4-0.6 s separated by gaps from {9.5, 9.99, 10.01, 10.5, 12, 20, 30, 60, 170, 179.9, 180.1, 190, 470, 600, 1000, 1700, 1790, 1860, 2000, 7200 s}, mostly alternating parity, loss levels 0/20/60/90 %, duplicate receptions +<=0.3 s, neighbours delivered in swapped order across any gap (truthful timestamps) or with exchanged timestamps when < 1.5 s apart, DF17 (any capability) or DF18 (any control field) carriers, every airborne (9-18, 20-22) and surface (5-8) type code, altitudes unavailable / 25 ft / Gillham coded, any movement / track / status bits, a quarter of the reports followed by a non-position message of the same aircraft (velocity, identification, status, operational status, target state, type code 0, DF11, DF4), addresses independent or from one family differing in a few bits / byte order); the airborne alias family 'gap just long enough to fly k latitude / m longitude zones (+-40 km) at <= 690 kt, then airborne again'; surface scenarios add landings, take-offs and the adversarial 'last airborne fix exactly k surface zones away, long gap, then surface' family, with a receiver reference within 36 NM of every surface site and |lat| <= 80; 'low altitude' scenarios put every aircraft on one common site, give airborne reports within 15 NM of it altitudes below 1000 ft and let the decoder move the receiver reference to such fixes (as decode1090 always does). Frames from the independent encoder through Message::try_from and decode_positions; and as a JSONL file through the real decode1090 binary (its own loop around decode_position) and, split into chunks, through the Python binding's decode_1090t_vec (positions within 25 m and equal to the library's). Oracle: every attached position within 25 m of the encoded one; per-aircraft outputs bit-identical with and without the other aircraft (fixed reference). Non-trivial = history with >= 1 positioned report and (a gap > 9 s or >= 2 aircraft); distinct by hash of the report list.");
+    ctx.assume("speeds <= 700 kt along great circles (rhumb lines along the 87th parallel); receiver reference fixed (update_reference = None) except in the 'low altitude' scenarios, where every fix that can move it lies within 15 NM of the one site all surface traffic is on");
     ctx.assume("surface aircraft are stationary during gaps, so the 40 NM premise of the property stays true");
-    let st = Stats { reports: AtomicU64::new(0), positioned: AtomicU64::new(0), surface_positioned: AtomicU64::new(0) };
+    let st = Stats { reports: AtomicU64::new(0), positioned: AtomicU64::new(0), surface_positioned: AtomicU64::new(0), reference_moves: AtomicU64::new(0), fillers: AtomicU64::new(0) };
     let n_air = ctx.tier.pick(24_000u32, 400_000u32);
     let n_sfc = ctx.tier.pick(24_000u32, 400_000u32);
+    let n_low = ctx.tier.pick(8_000u32, 120_000u32);
     let shards = 16u32;
     (0..shards).into_par_iter().for_each(|s| {
         run_prop(ctx, &format!("airborne-{s}"), n_air / shards, hist(false), |h| {
-            ctx.class(&format!("airborne scenario, {} aircraft", h.plans.len()));
-            for p in &h.plans {
-                ctx.class(["plan: airborne only", "plan: landing", "plan: take-off", "plan: alias", "plan: airborne alias"][(p.kind as usize).min(4)]);
-            }
+            classes(ctx, "airborne", h);
             check_hist(ctx, &st, h)
         });
         run_prop(ctx, &format!("surface-{s}"), n_sfc / shards, hist(true), |h| {
-            ctx.class(&format!("surface scenario, {} aircraft", h.plans.len()));
-            for p in &h.plans {
-                ctx.class(["plan: airborne only", "plan: landing", "plan: take-off", "plan: alias", "plan: airborne alias"][(p.kind as usize).min(4)]);
-            }
+            classes(ctx, "surface", h);
+            check_hist(ctx, &st, h)
+        });
+        run_prop(ctx, &format!("lowalt-{s}"), n_low / shards, hist_lowalt(), |h| {
+            classes(ctx, "low altitude (moving reference)", h);
             check_hist(ctx, &st, h)
         });
     });
@@ -567,8 +786,8 @@ pub fn run(ctx: &Ctx) {
         Ok(bin) => {
             let n_cli = ctx.tier.pick(320u32, 6_400u32);
             (0..shards).into_par_iter().for_each(|s| {
-                run_prop(ctx, &format!("cli-{s}"), n_cli / shards, prop_oneof![hist(false), hist(true)], |h| {
-                    ctx.class("history through the real decode1090 binary");
+                run_prop(ctx, &format!("cli-{s}"), n_cli / shards, prop_oneof![2 => hist(false), 2 => hist(true), 1 => hist_lowalt()], |h| {
+                    ctx.class(if h.lowalt { "low-altitude history through the real decode1090 binary" } else { "history through the real decode1090 binary" });
                     check_cli(ctx, &bin, h)
                 });
             });
@@ -578,22 +797,42 @@ pub fn run(ctx: &Ctx) {
             std::process::exit(2);
         }
     }
+    // the Python binding has its own driver around decode_positions (anchor python/src/lib.rs)
+    match PyEnv::from_env() {
+        Some(py) => {
+            let n_py = ctx.tier.pick(192u32, 3_200u32);
+            (0..shards).into_par_iter().for_each(|s| {
+                run_prop(ctx, &format!("py-{s}"), n_py / shards, prop_oneof![hist(false), hist(true)], |h| {
+                    ctx.class("history through the Python binding (decode_1090t_vec)");
+                    check_py(ctx, &py, h)
+                });
+            });
+        }
+        None => {
+            eprintln!("INCONCLUSIVE: VERIF_PYTHON / RS1090_PY_SO / VERIF_PY_DRIVER are not set (run through ./check)");
+            std::process::exit(2);
+        }
+    }
     let (r, p, sp) = (st.reports.load(Ordering::Relaxed), st.positioned.load(Ordering::Relaxed), st.surface_positioned.load(Ordering::Relaxed));
     ctx.set_extra("reports_fed", json!(r));
     ctx.set_extra("reports_positioned", json!(p));
     ctx.set_extra("surface_reports_positioned", json!(sp));
+    ctx.set_extra("reference_moves_in_low_altitude_histories", json!(st.reference_moves.load(Ordering::Relaxed)));
+    ctx.set_extra("non_position_messages_interleaved", json!(st.fillers.load(Ordering::Relaxed)));
     // a written-out sample history
     let h = Hist {
         reference: Some((2.1, 5.1)),
         plans: vec![Plan { icao: 0x4840d6, df18: false, kind: 3, lat: 0.0, lon: 0.0, bearing: 45.0, speed_kt: 60.0, rhumb: false, segs: vec![Seg { n: 6, period: 0.5, gap: 14 }, Seg { n: 4, period: 0.5, gap: 99 }], split: 1, ops: vec![0; 16], drop_level: 0, site_bearing: 10.0, site_nm: 5.0, alias_k: 1, alias_m: 0, jitter_m: (50.0, -30.0) }],
+        lowalt: false,
     };
     let reports = build(&h);
     ctx.sample(replay_json(&h, &reports));
-    ctx.judge(check_reports(ctx, &st, h.reference, &reports, &replay_json(&h, &reports)));
+    ctx.judge(check_reports(ctx, &st, h.reference, h.lowalt, &reports, &replay_json(&h, &reports)));
 }
 
 pub fn replay(ctx: &Ctx, v: &Value) {
     let reference = v["reference"].as_array().and_then(|a| Some((a.first()?.as_f64()?, a.get(1)?.as_f64()?)));
+    let lowalt = v["lowalt"].as_bool().unwrap_or(false);
     let reports: Vec<Report> = v["reports"]
         .as_array()
         .map(|a| {
@@ -608,19 +847,33 @@ pub fn replay(ctx: &Ctx, v: &Value) {
                     surface: r["surface"].as_bool().unwrap_or(false),
                     odd: r["odd"].as_bool().unwrap_or(false),
                     df18: r["df18"].as_bool().unwrap_or(false),
+                    // files written before altitudes were varied: 34 000 ft, as the frames then carried
+                    alt_ft: match r.get("alt_ft") {
+                        None => 34_000,
+                        Some(x) => x.as_i64().map(|x| x as i32).unwrap_or(NO_ALT),
+                    },
+                    filler: r["filler"].as_u64().unwrap_or(0) as u8,
                 })
                 .collect()
         })
         .unwrap_or_default();
-    let st = Stats { reports: AtomicU64::new(0), positioned: AtomicU64::new(0), surface_positioned: AtomicU64::new(0) };
+    let st = Stats { reports: AtomicU64::new(0), positioned: AtomicU64::new(0), surface_positioned: AtomicU64::new(0), reference_moves: AtomicU64::new(0), fillers: AtomicU64::new(0) };
     if v["via"] == "decode1090" {
         let Ok(bin) = std::env::var("DECODE1090_BIN") else {
             eprintln!("INCONCLUSIVE: DECODE1090_BIN is not set (replay through ./check)");
             std::process::exit(2);
         };
-        ctx.judge(check_cli_reports(ctx, &bin, reference, &reports, v));
+        ctx.judge(check_cli_reports(ctx, &bin, reference, lowalt, &reports, v));
         return;
     }
-    let r = check_reports(ctx, &st, reference, &reports, v);
+    if v["via"] == "python" {
+        let Some(py) = PyEnv::from_env() else {
+            eprintln!("INCONCLUSIVE: VERIF_PYTHON / RS1090_PY_SO / VERIF_PY_DRIVER are not set (replay through ./check)");
+            std::process::exit(2);
+        };
+        ctx.judge(check_py_reports(ctx, &py, reference, &reports, v));
+        return;
+    }
+    let r = check_reports(ctx, &st, reference, lowalt, &reports, v);
     ctx.judge(r);
 }
